@@ -4,7 +4,7 @@
 Exit 0: the property held on everything explored (known findings are listed, not alarms).
 Exit 1: a line `VIOLATION property=<id> replay=<path>` was printed.
 Exit 2: infrastructure failure (never a verdict)."""
-import sys, time, traceback, re
+import sys, time, traceback, re, subprocess
 from common import *
 import gen, replay
 
@@ -477,7 +477,106 @@ def c13(tier_):
         extra_cov=lambda ex: dict(strings=len(strings), decorations=sum(1 for s in strings if s[1]), negatives=sum(1 for s in strings if not s[1])))
 
 
-CHECKS = {'C13': c13, 'C01': c01, 'C02': c02, 'C03': c03, 'C04': c04, 'C05': c05, 'C06': c06, 'C07': c07, 'C08': c08, 'C09': c09, 'C20': c20, 'C10': c10, 'C11': c11, 'C12': c12, 'C14': c14, 'C15': c15, 'C16': c16, 'C17': c17}
+def c19(tier_):
+    rng = random.Random(seed())
+    apij = mk.api_json('exc')['cxx']
+    s, t, edges, _ = replay.explore(replay.mc_cfg(('d',), ('h1', 'h2') if tier_ == 'thorough' else ('h1',)), 'exc')
+    walks, nu = replay.cover_walks(edges)
+    cx = replay.Concrete(rng, apij)
+    base = replay.build_executions(edges, walks, cx, 'exc', sweep_every=30, rng=rng)
+    base += [gen.gen_registry_random(rng, steps=150) for _ in range(4 if tier_ == 'quick' else 30)]
+    base += [gen.gen_init_orders(rng) for _ in range(2 if tier_ == 'quick' else 12)]
+    execs, grp = [], 0
+    # (a) the driver's own allocator: fresh memory filled with 0x00 / 0xCD / 0xFF, freed memory poisoned; the hook
+    #     counter is bound to the specification heap (HeapExact), identical re-inits must not grow the heap
+    #     (HeapStable), and the three runs of a history share the memo: results must not depend on the pattern
+    for b in base:
+        grp += 1
+        for fill in (0x00, 0xCD, 0xFF):
+            e = Execution(b.script, variant='exc', alloc=True, fill=fill, label=b.label + ':fill%02x' % fill)
+            e.group = grp
+            execs.append(e)
+    # (b) the same histories under AddressSanitizer + UndefinedBehaviorSanitizer + LeakSanitizer
+    nsan = len(base) if tier_ == 'thorough' else max(8, len(base) // 3)
+    for b in rng.sample(base, min(nsan, len(base))) + base[-2:]:
+        execs.append(Execution(b.script, variant='san', label=b.label + ':san'))
+    # (c) Valgrind memcheck (thorough tier): uninitialised reads that sanitizers do not see
+    vg = []
+    if tier_ == 'thorough':
+        vg = rng.sample(base, min(12, len(base))) + base[-1:]
+    t0 = time.time()
+    wd = workdir('C19')
+    run_executions(execs, wd)
+    extra = crashes(execs)
+    for e in execs:
+        if e.variant == 'san' and e.err and re.search(r'ERROR: (Address|Leak)Sanitizer|runtime error:', e.err):
+            extra.append(('sanitizer report in %s: %s' % (e.label, e.err[:600].replace('\n', ' | ')), e))
+    if vg:
+        exe = mk.build_driver('exc')
+        for i, b in enumerate(vg):
+            log = os.path.join(wd, 'vg%d.ndjson' % i)
+            open(log + '.script', 'w').write('\n'.join('\t'.join(mk.esc(str(x)) for x in f) for f in b.script) + '\n')
+            r = subprocess.run(['valgrind', '--error-exitcode=99', '--leak-check=full', '--errors-for-leak-kinds=definite,indirect', '-q', exe, log + '.script', log],
+                               stdout=subprocess.PIPE, stderr=subprocess.PIPE, text=True, timeout=3000)
+            if r.returncode != 0:
+                extra.append(('valgrind reports errors (rc=%d) in %s: %s' % (r.returncode, b.label, r.stderr[:800].replace('\n', ' | ')), b))
+    nlines, rej = validate_executions(execs, wd, relax=(), oracle=False)
+    nviol = report('C19', rej, extra)
+    cov = dict(evaluations=sum(len(e.events) for e in execs), distinct_nontrivial=distinct_nontrivial(execs),
+               rule='histories: every transition of the bounded 1-handle model (2 handles thorough), random multi-handle histories, every solution type initialised in random orders three times in a row and on distinct handles, vector parameters of changing length, C arrays of length 0..8. Each history runs (a) three times under the driver allocator with fill patterns 0x00/0xCD/0xFF and poisoned frees, traces validated with the hook counter bound to the specification heap (HeapExact, HeapStable) and a memo shared across the three runs, (b) under ASan+UBSan+LSan, (c) thorough: under Valgrind memcheck. distinct = distinct (call, arguments) shapes',
+               samples=sample_of(execs), states=s, transitions=t, distinct_transitions_replayed=nu, exhaustive=True,
+               traces_validated_against_impl=len(execs), trace_lines_accepted=nlines, rejections=len(rej),
+               sanitizer_runs=sum(1 for e in execs if e.variant == 'san'), valgrind_runs=len(vg), fill_patterns=[0, 0xCD, 0xFF])
+    write_evidence('C19', tier_, 'model_checking', cov, COMMON_ASSUME + ['ASan/UBSan/LSan (clang 14) and Valgrind 3.19 report what they are documented to report'], time.time() - t0, nviol)
+    shutil.rmtree(wd, ignore_errors=True)
+    return 1 if nviol else 0
+
+
+def c18(tier_):
+    t0 = time.time()
+    wd = workdir('C18')
+    lib = mk.build_lib('exc')
+    abi = os.path.join(wd, 'abi.json')
+    rr = mk.sh([sys.executable, os.path.join(VERIF, 'harness', 'abi_extract.py'), mk.REPO, abi, lib])
+    if rr.returncode != 0:
+        raise InfraError('abi_extract failed: ' + rr.stderr[-2000:])
+    tables = json.load(open(abi))
+    kn = [k for k in KNOWN if k.get('status') == 'known' and k.get('property') == 'C18']
+    kf = os.path.join(wd, 'known.json')
+    json.dump([[k['match']['fname'], k['match']['what']] for k in kn], open(kf, 'w'))
+    rc, out = mk.tlc('MasaAbi.tla', 'MasaAbi.cfg', SPEC, env={'ABI': abi, 'KNOWN': kf}, workers=1, timeout=600)
+    lines = re.findall(r'"ABI ([^"]*)"', out)
+    if not any(l.startswith('COUNTS') for l in lines):
+        raise InfraError('MasaAbi did not evaluate:\n' + out[-2000:])
+    viol = [l for l in lines if l.startswith('VIOLATION')]
+    seen = [l for l in lines if l.startswith('KNOWN')]
+    for k in kn:
+        if any(l.split()[1] == k['match']['fname'] and l.split()[2] == k['match']['what'] for l in seen):
+            print('KNOWN-FINDING: property=C18 %s' % k['what'])
+        else:
+            print('note: known finding %s no longer reproduces on this tree' % k['id'])
+    nviol = 0
+    os.makedirs(os.path.join(VERIF, 'replays'), exist_ok=True)
+    for l in viol:
+        path = os.path.join(VERIF, 'replays', 'C18-%03d.json' % nviol)
+        json.dump(dict(property='C18', finding=l, tables=tables if nviol == 0 else 'see C18-000.json'), open(path, 'w'), indent=1)
+        print('  ' + l)
+        print('VIOLATION property=C18 replay=%s' % path)
+        nviol += 1
+    ok = 'No error has been found' in out
+    if not ok and not viol:
+        raise InfraError('MasaAbi failed without a reported discrepancy:\n' + out[-2000:])
+    nf, nd, nc = len(tables['fortran']), len(tables['cdecls']), len(tables['cdefs'])
+    cov = dict(explanation='static relation, decided completely over the extracted tables: %d Fortran bind(C) interfaces (comments and continuations honoured), %d declarations of the extern "C" block of masa.h.in, %d extern "C" definitions of cmasa.cpp, %d exported text symbols of the freshly built library, and the %%module/%%include lines of masa.i. MasaAbi.tla maps every Fortran dummy argument to the C slot the interoperability rules assign (value/by-reference, kind, array, procedure) and TLC evaluates: bound name defined and exported, same number of slots, same slot types, same result; every header declaration defined with identical types and exported; no symbol defined twice; masa.i includes exactly masa.h.' % (nf, nd, nc, len(tables['exported'])),
+               evaluations=nf + nd + nc, distinct_nontrivial=nf + nd, exhaustive=True,
+               samples=[tables['fortran'][0], tables['cdecls'][0]], fortran_interfaces=nf, header_declarations=nd, c_definitions=nc,
+               known_findings=len(seen), discrepancies=len(viol))
+    write_evidence('C18', tier_, 'other', cov, ['harness/abi_extract.py reads the three interface texts faithfully (a Fortran interface-block parser and C declaration regexes; both trivial to audit)', 'the slot mapping in MasaAbi.tla states the Fortran 2003 C-interoperability rules; nothing is executed (no Fortran compiler, no SWIG in this sandbox)'], time.time() - t0, nviol)
+    shutil.rmtree(wd, ignore_errors=True)
+    return 1 if nviol else 0
+
+
+CHECKS = {'C18': c18, 'C19': c19, 'C13': c13, 'C01': c01, 'C02': c02, 'C03': c03, 'C04': c04, 'C05': c05, 'C06': c06, 'C07': c07, 'C08': c08, 'C09': c09, 'C20': c20, 'C10': c10, 'C11': c11, 'C12': c12, 'C14': c14, 'C15': c15, 'C16': c16, 'C17': c17}
 
 
 def main():
